@@ -13,6 +13,8 @@ package common
 //@ func BigIntToLittleEndianBytes
 //@   props C19 C10
 //@   requires n != nil
+//@   modifies nothing
+//@   ensures[argument-untouched] bigval(n) == old(bigval(n))
 //@   ensures[len] len(result) == 32 && off(result) == 0
 //@   ensures[bytes] forall(k, 0, 32, seq(result)[k] == ite(k < bigLen(absInt(bigval(n))), bigBytes(absInt(bigval(n)))[bigLen(absInt(bigval(n))) - 1 - k], 0))
 //@   ensures[abstract] bytesOf(seq(result), 32) == leB(absInt(bigval(n)))
